@@ -200,6 +200,8 @@ namespace Pistache::Http
                     value      = token.text();
                 }
                 cookie.ext.insert(std::make_pair(std::move(name), std::move(value)));
+                // skip the ';' that ends this attribute, as for the named attributes
+                cursor.advance(1);
             }
 
         } while (!cursor.eof());
